@@ -80,7 +80,11 @@ fn gen_case(seed: u64, i: u64, corpus: &[String], regr: &[String]) -> (String, S
         return ("deep-parens".into(), inputs::deep_parens(&mut r));
     }
     let base = &corpus[r.usize(corpus.len())];
-    match r.below(25) {
+    match r.below(27) {
+        25 | 26 => {
+            let (s, how) = inputs::dispatch_program(&mut r);
+            (format!("dispatch-{how}"), s)
+        }
         21..=24 => {
             let (s, how) = inputs::typed_program(&mut r);
             (format!("types-{how}"), s)
@@ -386,7 +390,7 @@ fn main() {
                     ev.case(&src, !src.is_empty());
                     ev.hit(&format!("robust:stream:{stream}"));
                     let tag2 = rest.split(' ').next().unwrap_or("");
-                    if stream.starts_with("types-") {
+                    if stream.starts_with("types-") || stream.starts_with("dispatch-") {
                         ev.hit(&format!("robust:types-stream:{}", match tag2 { "C" => rest.as_str(), "E" => "parse-error", _ => "violation" }));
                     }
                     match tag2 {
